@@ -1,8 +1,175 @@
+import Afkak.Crc32
+import Afkak.WireCost
+import Afkak.C12.MsgSet
+import Afkak.C12.Grow
+import Afkak.Monitor.C12
 import Driver.Util
-/-! Driver for the `Crc` component (stub until the component is built). -/
-namespace Driver.Crc
+/-!
+Line-protocol driver for the `crc` component (property C12): CRC-32, message / message-set
+decoding with cost, every response decoder with cost, the buffer growth rule, and the C12 monitors.
 
-def step (st : Unit) (_line : String) : Unit × List String := (st, ["bad-op"])
+Bytes: hex, `-` = empty, `N` = None.  gzip table entries: `g:<in>:o:<out>` / `g:<in>:e:<Class>`.
+-/
+namespace Driver.Crc
+open Afkak.Crc32 Afkak.WireCost Afkak.C12 Afkak.Monitor.C12 Driver
+
+def parseOptHex (s : String) : Option (Option (List UInt8)) :=
+  if s == "N" then some none else (parseHex s).map some
+
+def hexB (bs : List UInt8) : String :=
+  String.ofList (bs.foldr (fun b acc => hexDigit (b.toNat / 16) :: hexDigit (b.toNat % 16) :: acc) [])
+
+def showOptB : Option (List UInt8) → String
+  | none => "N"
+  | some b => "b" ++ hexB b
+
+def showOptI : Option Int → String
+  | none => "N"
+  | some i => toString i
+
+def showMsg (om : Int × Msg) : String :=
+  s!"m({om.1},{om.2.magic},{om.2.attrs},{showOptI om.2.ts},{showOptB om.2.key},{showOptB om.2.value})"
+
+def showEnd : Option Err → String
+  | none => "ok"
+  | some e => e.name
+
+def showSet (r : SetOut) : String :=
+  "{" ++ ";".intercalate (r.msgs.map showMsg) ++ "|" ++ showEnd r.err ++ "}"
+
+/-- gzip table: list of (input, result) -/
+abbrev GzTab := List (Option (List UInt8) × Except Err (List UInt8))
+
+def gzOf (t : GzTab) : Gz := fun v =>
+  match t.find? (fun e => e.1 == v) with
+  | some e => e.2
+  | none => .error (.external "MISSING-GZ-ENTRY")
+
+def parseGz (tok : String) : Option (Option (List UInt8) × Except Err (List UInt8)) :=
+  match tok.splitOn ":" with
+  | ["g", i, "o", o] => do
+    let i ← parseOptHex i
+    let o ← parseHex o
+    pure (i, .ok o)
+  | ["g", i, "e", cls] => do
+    let i ← parseOptHex i
+    pure (i, .error (.external cls))
+  | _ => none
+
+/-- canonical text of a value; message sets are iterated here (cost and gz bytes are summed) -/
+partial def showVal (gz : Gz) (depth : Nat) : Val → String × Nat × Nat
+  | .int i => (s!"i{i}", 0, 0)
+  | .bytes b => ("b" ++ hexB b, 0, 0)
+  | .null => ("N", 0, 0)
+  | .mset d =>
+    let r := decodeSetOpt gz depth d
+    (showSet r, r.cost, r.gz)
+  | .list l =>
+    let (strs, k, g) := l.foldl (fun (acc : List String × Nat × Nat) v =>
+      let (s, k, g) := showVal gz depth v
+      (s :: acc.1, acc.2.1 + k, acc.2.2 + g)) ([], 0, 0)
+    ("[" ++ ",".intercalate strs.reverse ++ "]", k, g)
+
+def decoderOf (name : String) (version : Int) : Option (Rd Val) :=
+  match name with
+  | "api_versions" => some decodeApiVersions
+  | "produce" => some (decodeProduce version)
+  | "fetch" => some (decodeFetch version)
+  | "offset" => some decodeOffset
+  | "metadata" => some decodeMetadata
+  | "consumermetadata" => some decodeConsumerMetadata
+  | "offset_commit" => some decodeOffsetCommit
+  | "offset_fetch" => some decodeOffsetFetch
+  | "join_group_protocol_metadata" => some decodeJoinGroupProtocolMetadata
+  | "join_group" => some decodeJoinGroup
+  | "leave_group" => some decodeLeaveGroup
+  | "heartbeat" => some decodeHeartbeat
+  | "sync_group" => some decodeSyncGroup
+  | "sync_group_member_assignment" => some decodeSyncGroupMemberAssignment
+  | _ => none
+
+/-- `off,magic,att,ts|N,key,val` -/
+def parseMsg (s : String) : Option (Int × Msg) :=
+  match s.splitOn "," with
+  | [off, magic, att, ts, key, val] => do
+    let off ← off.toInt?
+    let magic ← magic.toInt?
+    let att ← att.toInt?
+    let ts ← if ts == "N" then some none else ts.toInt?.map some
+    let key ← parseOptHex key
+    let val ← parseOptHex val
+    pure (off, { magic := magic, attrs := att, key := key, value := val, ts := ts })
+  | _ => none
+
+def parseNats (s : String) : Option (List Nat) :=
+  if s == "-" then some [] else (s.splitOn ",").mapM (fun t => t.toNat?)
+
+def allErrs : List Err :=
+  [.bufferUnderflow, .checksum, .fetchSizeTooSmall, .protocol, .invalidMessage, .structError,
+   .attributeError, .typeError, .unicodeDecode, .notImplemented, .valueError, .unboundLocal,
+   .recursion]
+
+/-- `ok` or an exception class name (an unknown class is kept as `external`) -/
+def parseEnd (s : String) : Option Err :=
+  if s == "ok" then none
+  else match allErrs.find? (fun e => e.name == s) with
+    | some e => some e
+    | none => some (.external s)
+
+def splitList (s : String) : List String := if s == "-" then [] else s.splitOn ";"
+
+def step (st : Unit) (line : String) : Unit × List String :=
+  match words line with
+  | ["crc", hex] => match parseHex hex with
+    | some bs => (st, [s!"int {(crc32 bs).toNat}"])
+    | none => (st, ["bad-op"])
+  | ["crcspec", hex] => match parseHex hex with
+    | some bs => (st, [s!"int {(crcSpec bs).toNat}"])
+    | none => (st, ["bad-op"])
+  | "decset" :: depth :: hex :: gzs => match depth.toNat?, parseOptHex hex, gzs.mapM parseGz with
+    | some depth, some d, some tab =>
+      let r := decodeSetOpt (gzOf tab) depth d
+      (st, [s!"set {showSet r}", s!"cost {r.cost} gz {r.gz}"])
+    | _, _, _ => (st, ["bad-op"])
+  | "dec" :: name :: version :: depth :: hex :: gzs =>
+    match version.toInt?, depth.toNat?, parseHex hex, gzs.mapM parseGz with
+    | some version, some depth, some d, some tab =>
+      match decoderOf name version with
+      | none => (st, ["bad-op"])
+      | some m =>
+        match run m d with
+        | .err e k => (st, [s!"error {e.name}", s!"cost {k} gz 0"])
+        | .ok v _ k =>
+          let (s, k2, g) := showVal (gzOf tab) depth v
+          (st, [s!"value {s}", s!"cost {k + k2} gz {g}"])
+    | _, _, _, _ => (st, ["bad-op"])
+  | ["encset", msgs] =>
+    match (if msgs == "-" then some [] else (msgs.splitOn ";").mapM parseMsg) with
+    | some ms => (st, [s!"bytes {toHex (encodeSet ms)}", "lens " ++ showInts (ms.map (fun om => ((encodeEntry om).length : Int)))])
+    | none => (st, ["bad-op"])
+  | ["grow", b, max] => match b.toNat?, parseOptNat (if max == "N" then "-" else max) with
+    | some b, some max => match grow b max with
+      | some b' => (st, [s!"int {b'}"])
+      | none => (st, ["fail"])
+    | _, _ => (st, ["bad-op"])
+  -- monitors on IMPLEMENTATION results
+  | ["mon-burst", msg, e, k, before, yielded, endc] => match parseHex msg, parseHex e, k.toNat? with
+    | some msg, some e, some k =>
+      if !(crcOk msg && isBurst msg.length e k) then (st, ["skip"])
+      else (st, [if burstOk msg e k (splitList before) (splitList yielded) (parseEnd endc) then "ok" else "fail"])
+    | _, _, _ => (st, ["bad-op"])
+  | ["mon-trunc", lens, orig, c, yielded, endc] =>
+    match parseNats lens, c.toNat? with
+    | some lens, some c =>
+      (st, [if truncOk lens (splitList orig) c (splitList yielded) (parseEnd endc) then "ok" else "fail"])
+    | _, _ => (st, ["bad-op"])
+  | ["mon-reads", len, cost] => match len.toNat?, cost.toNat? with
+    | some len, some cost => (st, [if readsOk len cost then "ok" else "fail"])
+    | _, _ => (st, ["bad-op"])
+  | ["mon-setcost", len, gz, cost] => match len.toNat?, gz.toNat?, cost.toNat? with
+    | some len, some gz, some cost => (st, [if setCostOk len gz cost then "ok" else "fail"])
+    | _, _, _ => (st, ["bad-op"])
+  | _ => (st, ["bad-op"])
 
 end Driver.Crc
 
